@@ -98,11 +98,14 @@ async def scripted_open(conn):
 NAN = struct.pack("<I", 0x7FC00000)
 
 
-def sensor_payload(mixers=0, thermostats=0):
+def sensor_payload(mixers=0, thermostats=0, versions=()):
     """Minimal sensor-data payload with `mixers` mixer blocks and `thermostats` thermostat blocks
-    (indexes 0..n-1 in both sections, so they overlap)."""
+    (indexes 0..n-1 in both sections, so they overlap); `versions`: the frame-version table, (frame type, version) pairs."""
     b = bytearray()
-    b.append(0)  # frame versions: none
+    b.append(len(versions))  # frame versions: count, then type (1 byte) + version (u16 LE) each
+    for ftype, ver in versions:
+        b.append(ftype)
+        b += struct.pack("<H", ver)
     b.append(3)  # state
     b += struct.pack("<I", 0)  # outputs
     b += struct.pack("<I", 0)  # output flags
@@ -133,8 +136,8 @@ def sensor_payload(mixers=0, thermostats=0):
     return bytes(b)
 
 
-def sensor_frame(mixers=0, thermostats=0, sender=69):
-    return fg.mk(53, sensor_payload(mixers, thermostats), 86, sender)
+def sensor_frame(mixers=0, thermostats=0, sender=69, versions=()):
+    return fg.mk(53, sensor_payload(mixers, thermostats, versions), 86, sender)
 
 
 def password_frame(sender=69):
